@@ -14,6 +14,7 @@ import (
 	"encoding/json"
 	"encoding/pem"
 	"fmt"
+	"io"
 	"net"
 	"os"
 	"path/filepath"
@@ -50,7 +51,9 @@ type Job struct {
 	Out      string          `json:"out"`
 	Ready    string          `json:"ready,omitempty"` // touched right before server.New (kill timing)
 	Wiring   *Wiring         `json:"wiring,omitempty"`
-	Hold     bool            `json:"hold,omitempty"` // stay alive (holding the store) after the observation is written
+	Spell    string          `json:"spell,omitempty"` // the data directory as handed to WithDataDir (default: DataDir)
+	Cwd      string          `json:"cwd,omitempty"`   // working directory of the start
+	Hold     bool            `json:"hold,omitempty"`  // stay alive (holding the store) after the observation is written
 }
 
 // ItemObs describes one persisted kv item after the start.
@@ -84,17 +87,18 @@ type Arrival struct {
 var probeCats = []string{"catA", "catB", "catC", "catD"}
 
 type ChildObs struct {
-	Failed    bool                 `json:"failed,omitempty"`     // filled in by the parent: the process ended without completing the start
-	Deliv     map[string][]Arrival `json:"deliveries,omitempty"` // probe event category -> arrivals on the generated channels, in order
-	Started   bool                 `json:"started"`
-	NewErr    string               `json:"new_err,omitempty"`
-	Token     hx.B                 `json:"token"` // "token" field of an event delivered to a configured channel
-	TokenSeen int                  `json:"token_values_seen"`
-	TokenFile *hx.B                `json:"token_file"` // nil: absent
-	TmpFiles  map[string]hx.B      `json:"tmp_files,omitempty"`
-	KV        map[string]ItemObs   `json:"kv"`
-	Seen      map[string]hx.B      `json:"seen"` // identity PRESENTED to a client, per configured service instance (digest)
-	Errs      []string             `json:"errs,omitempty"`
+	Failed    bool                       `json:"failed,omitempty"`     // filled in by the parent: the process ended without completing the start
+	Deliv     map[string][]Arrival       `json:"deliveries,omitempty"` // probe event category -> arrivals on the generated channels, in order
+	Started   bool                       `json:"started"`
+	NewErr    string                     `json:"new_err,omitempty"`
+	Token     hx.B                       `json:"token"` // "token" field of an event delivered to a configured channel
+	TokenSeen int                        `json:"token_values_seen"`
+	TokenFile *hx.B                      `json:"token_file"` // nil: absent
+	TmpFiles  map[string]hx.B            `json:"tmp_files,omitempty"`
+	KV        map[string]ItemObs         `json:"kv"`
+	Seen      map[string]map[string]hx.B `json:"seen"` // per configured service instance, per host key algorithm / certificate
+	// type it advertises: the identity PRESENTED to a client restricted to that algorithm (digest; empty: not observable)
+	Errs []string `json:"errs,omitempty"`
 }
 
 var kvItems = []struct{ Name, NS, Key string }{
@@ -261,8 +265,49 @@ func readLineWith(br *bufio.Reader, prefix string) error {
 	return fmt.Errorf("no %q reply", prefix)
 }
 
+// tlsModes: client configurations that admit only ECDSA/Ed25519 certificates, only RSA
+// certificates (TLS 1.2 suites name the certificate type), and anything.
+var tlsModes = []*tls.Config{
+	{InsecureSkipVerify: true, MaxVersion: tls.VersionTLS12, CipherSuites: []uint16{
+		tls.TLS_ECDHE_ECDSA_WITH_AES_128_GCM_SHA256, tls.TLS_ECDHE_ECDSA_WITH_AES_256_GCM_SHA384,
+		tls.TLS_ECDHE_ECDSA_WITH_CHACHA20_POLY1305, tls.TLS_ECDHE_ECDSA_WITH_AES_128_CBC_SHA, tls.TLS_ECDHE_ECDSA_WITH_AES_256_CBC_SHA}},
+	{InsecureSkipVerify: true, MaxVersion: tls.VersionTLS12, CipherSuites: []uint16{
+		tls.TLS_ECDHE_RSA_WITH_AES_128_GCM_SHA256, tls.TLS_ECDHE_RSA_WITH_AES_256_GCM_SHA384,
+		tls.TLS_ECDHE_RSA_WITH_CHACHA20_POLY1305, tls.TLS_ECDHE_RSA_WITH_AES_128_CBC_SHA, tls.TLS_ECDHE_RSA_WITH_AES_256_CBC_SHA,
+		tls.TLS_RSA_WITH_AES_128_GCM_SHA256, tls.TLS_RSA_WITH_AES_128_CBC_SHA}},
+	{InsecureSkipVerify: true},
+}
+
+var tlsCfg = tlsModes[2]
+var tlsKeyAlg string // public key algorithm of the last leaf seen
+
+// probeTLSAll runs a service's STARTTLS dialogue once per client mode and records the
+// leaf certificate per certificate type the service turned out to offer.
+func probeTLSAll(probe func(int) ([]byte, error), port int) (map[string][]byte, error) {
+	out := map[string][]byte{}
+	var last error
+	for _, m := range tlsModes {
+		tlsCfg = m
+		v, err := probe(port)
+		if err != nil {
+			last = err
+			continue
+		}
+		name := "tls-" + strings.ToLower(tlsKeyAlg)
+		if old, ok := out[name]; ok && string(old) != string(v) {
+			name += "-other"
+		}
+		out[name] = v
+	}
+	tlsCfg = tlsModes[2]
+	if len(out) == 0 {
+		return nil, last
+	}
+	return out, nil
+}
+
 func tlsLeaf(c net.Conn) ([]byte, error) {
-	tc := tls.Client(c, &tls.Config{InsecureSkipVerify: true})
+	tc := tls.Client(c, tlsCfg.Clone())
 	if err := tc.Handshake(); err != nil {
 		return nil, err
 	}
@@ -270,8 +315,91 @@ func tlsLeaf(c net.Conn) ([]byte, error) {
 	if len(st.PeerCertificates) == 0 {
 		return nil, fmt.Errorf("no certificate presented")
 	}
+	tlsKeyAlg = st.PeerCertificates[0].PublicKeyAlgorithm.String()
 	return st.PeerCertificates[0].Raw, nil
 }
+
+// sshAdvertised reads the server's KEXINIT and returns its server_host_key_algorithms.
+func sshAdvertised(port int) ([]string, error) {
+	cc, err := connect(port)
+	if err != nil {
+		return nil, err
+	}
+	defer cc.Close()
+	br := bufio.NewReader(cc)
+	fmt.Fprintf(cc, "SSH-2.0-c18probe\r\n")
+	for i := 0; ; i++ {
+		line, err := br.ReadString('\n')
+		if err != nil {
+			return nil, err
+		}
+		if strings.HasPrefix(line, "SSH-") {
+			break
+		}
+		if i > 20 {
+			return nil, fmt.Errorf("no ssh banner")
+		}
+	}
+	hdr := make([]byte, 5)
+	if _, err := io.ReadFull(br, hdr); err != nil {
+		return nil, err
+	}
+	n := int(hdr[0])<<24 | int(hdr[1])<<16 | int(hdr[2])<<8 | int(hdr[3])
+	if n < 2 || n > 1<<16 {
+		return nil, fmt.Errorf("bad packet length %d", n)
+	}
+	body := make([]byte, n-1)
+	if _, err := io.ReadFull(br, body); err != nil {
+		return nil, err
+	}
+	pay := body[:len(body)-int(hdr[4])]
+	if len(pay) < 17 || pay[0] != 20 {
+		return nil, fmt.Errorf("first packet is not KEXINIT")
+	}
+	pay = pay[17:]
+	var lists []string
+	for i := 0; i < 2; i++ {
+		if len(pay) < 4 {
+			return nil, fmt.Errorf("short KEXINIT")
+		}
+		l := int(pay[0])<<24 | int(pay[1])<<16 | int(pay[2])<<8 | int(pay[3])
+		if len(pay) < 4+l {
+			return nil, fmt.Errorf("short KEXINIT")
+		}
+		lists = append(lists, string(pay[4:4+l]))
+		pay = pay[4+l:]
+	}
+	if lists[1] == "" {
+		return nil, nil
+	}
+	return strings.Split(lists[1], ","), nil
+}
+
+// probeSSHAll: one handshake per host key algorithm the server advertises, the client
+// restricted to that algorithm.
+func probeSSHAll(port int) (map[string][]byte, error) {
+	algs, err := sshAdvertised(port)
+	if err != nil {
+		return nil, fmt.Errorf("reading the advertised host key algorithms: %v", err)
+	}
+	if len(algs) == 0 {
+		return nil, fmt.Errorf("no host key algorithm advertised")
+	}
+	out := map[string][]byte{}
+	for _, a := range algs {
+		sshAlgs = []string{a}
+		v, err := probeSSH(port)
+		if err != nil {
+			out[a] = nil // advertised but not observable
+			continue
+		}
+		out[a] = v
+	}
+	sshAlgs = nil
+	return out, nil
+}
+
+var sshAlgs []string
 
 func probeSSH(port int) ([]byte, error) {
 	cc, err := connect(port)
@@ -284,7 +412,7 @@ func probeSSH(port int) ([]byte, error) {
 		HostKeyCallback: func(hostname string, remote net.Addr, key ssh.PublicKey) error {
 			seen = key.Marshal()
 			return nil
-		}, Timeout: 20 * time.Second}
+		}, HostKeyAlgorithms: sshAlgs, Timeout: 20 * time.Second}
 	conn, _, _, err := ssh.NewClientConn(cc, "honeytrap", cfg)
 	if conn != nil {
 		conn.Close()
@@ -524,7 +652,7 @@ func childMain(jobPath string) {
 	if err := json.Unmarshal(b, &job); err != nil {
 		os.Exit(4)
 	}
-	ob := &ChildObs{KV: map[string]ItemObs{}, Seen: map[string]hx.B{}}
+	ob := &ChildObs{KV: map[string]ItemObs{}, Seen: map[string]map[string]hx.B{}}
 	switch job.Mode {
 	case "seed":
 		storage.SetDataDir(job.DataDir)
@@ -560,7 +688,16 @@ func childMain(jobPath string) {
 	if job.Ready != "" {
 		os.WriteFile(job.Ready, []byte("x"), 0o644)
 	}
-	optD, err := server.WithDataDir(job.DataDir)
+	if job.Cwd != "" {
+		if err := os.Chdir(job.Cwd); err != nil {
+			os.Exit(4)
+		}
+	}
+	spell := job.Spell
+	if spell == "" {
+		spell = job.DataDir
+	}
+	optD, err := server.WithDataDir(spell)
 	if err != nil {
 		ob.NewErr = "datadir: " + err.Error()
 		writeObs(job, ob)
@@ -586,35 +723,43 @@ func childMain(jobPath string) {
 	for _, s := range job.Services {
 		enabled[s] = true
 	}
-	note := func(item string, v []byte, err error) {
+	note := func(item string, vs map[string][]byte, err error) {
 		if err != nil {
 			ob.Errs = append(ob.Errs, item+": "+err.Error())
 			return
 		}
-		ob.Seen[item] = dig(v)
+		ob.Seen[item] = map[string]hx.B{}
+		for alg, v := range vs {
+			if v == nil {
+				ob.Seen[item][alg] = hx.B{}
+				ob.Errs = append(ob.Errs, item+": advertises "+alg+" but no handshake restricted to it succeeds")
+				continue
+			}
+			ob.Seen[item][alg] = dig(v)
+		}
 	}
 	for _, name := range job.Services {
 		d, ok := svcDefs[name]
 		if !ok {
 			continue
 		}
-		var v []byte
+		var vs map[string][]byte
 		var err error
 		switch d.Probe {
 		case "ssh":
-			v, err = probeSSH(d.Port)
+			vs, err = probeSSHAll(d.Port)
 		case "ftp":
-			v, err = probeFTP(d.Port)
+			vs, err = probeTLSAll(probeFTP, d.Port)
 		case "smtp":
-			v, err = probeSMTP(d.Port)
+			vs, err = probeTLSAll(probeSMTP, d.Port)
 		case "ldap":
-			v, err = probeLDAP(d.Port)
+			vs, err = probeTLSAll(probeLDAP, d.Port)
 		}
-		note(name, v, err)
+		note(name, vs, err)
 	}
 	if enabled["agent"] {
 		v, err := probeAgent()
-		note("agent", v, err)
+		note("agent", map[string][]byte{"agent": v}, err)
 	}
 	// probe events sent on the bus the listener was given (EventBus.Send is synchronous):
 	// one per probe category, then the one whose arrival on "all" gives the token in use
